@@ -25,11 +25,19 @@ Require Import DS.Base DS.Parser DS.Cli DS.CliFns DS.Rs2vCliLib.
 Require Import DSG.GenCliFn.
 
 Ltac cli_atoms :=
+  (* string comparisons are decided by their SPECIFICATION: a positive answer substitutes the compared text, so every other
+     comparison of it with a literal computes - two option spellings can never both match, whatever order the source tests
+     them in (a syntactic abstraction to independent booleans would invent such cases) *)
   repeat match goal with
-         | |- context [str_eqb ?a ?b] => let x := fresh "atom" in generalize (str_eqb a b); intros x
+         | |- context [str_eqb ?a ?b] =>
+           let E := fresh "E" in
+           destruct (str_eqb_spec a b) as [E|E];
+           [first [subst a | subst b | rewrite E in * |- * | idtac]|]; cbn in *
+         end;
+  repeat match goal with
          | |- context [is_lower_case ?a] => let x := fresh "atom" in generalize (is_lower_case a); intros x
          end;
-  repeat match goal with x : bool |- _ => destruct x end; try reflexivity.
+  repeat match goal with x : bool |- _ => destruct x end; try reflexivity; try congruence.
 
 (* comparisons of the same two strings in either order: by their specification *)
 Ltac str_cases :=
